@@ -1,6 +1,6 @@
 (* C09 - whitespace, comments, keyword case never change the parse (statements about the engine model of Model/Peg.v). *)
 From Coq Require Import List NArith Bool.
-From MoSql Require Import Model.Peg Model.PegSim Proofs.PegProofs Proofs.PegSimProofs Proofs.PegLog Proofs.PegCor.
+From MoSql Require Import Model.Peg Model.PegSim Proofs.PegProofs Proofs.PegSimProofs Proofs.PegLog Proofs.PegCor Proofs.PegCert.
 Import ListNotations.
 Local Open Scope N_scope.
 
@@ -18,6 +18,24 @@ Theorem C09_layout_invariance : forall T o1 o2 len1 len2 phi root w0 f1 f2,
   is_abort (fst (parse_all T o1 len1 f1 root w0)) = false -> is_abort (fst (parse_all T o2 len2 f2 root w0)) = false ->
   fst (parse_all T o2 len2 f2 root w0) = mapres phi (fst (parse_all T o1 len1 f1 root w0)).
 Proof. exact C09_layout_invariance_pf. Qed.
+
+
+(* the same with the two "does not abort" premises discharged by the totality theorem: for a table with a checked certificate, oracles that behave, and the stated fuel *)
+Theorem C09_layout_invariance_total : forall NL NLR RK NLT T o1 o2 len1 len2 phi root w0 f1 f2,
+  (forall a b, a < b -> phi a < phi b) -> len2 = phi len1 ->
+  simb T T (id_rel (length T)) [] [] = true ->
+  In (root, root) (id_rel (length T)) ->
+  o2 (QS w0 0) = phi (o1 (QS w0 0)) ->
+  (forall q, In q (snd (parse_all T o1 len1 f1 root w0)) -> comm o1 o2 phi q) ->
+  cert_ok NL NLR RK NLT T = true -> oracle_ok NLT o1 len1 -> oracle_ok NLT o2 len2 -> root < N.of_nat (List.length T) ->
+  (len1 + 1) * (Rmax RK + 2) + RKf RK root + 1 < N.of_nat f1 -> (len2 + 1) * (Rmax RK + 2) + RKf RK root + 1 < N.of_nat f2 ->
+  fst (parse_all T o2 len2 f2 root w0) = mapres phi (fst (parse_all T o1 len1 f1 root w0)).
+Proof.
+  intros NL NLR RK NLT T o1 o2 len1 len2 phi root w0 f1 f2 Hm Hl Hs Hr H0 Hq Hc Ho1 Ho2 Hroot Hf1 Hf2.
+  apply C09_layout_invariance_pf; auto.
+  - exact (engine_total NL NLR RK NLT T o1 len1 root w0 f1 Hc Ho1 Hroot Hf1).
+  - exact (engine_total NL NLR RK NLT T o2 len2 root w0 f2 Hc Ho2 Hroot Hf2).
+Qed.
 
 
 (* the unconditional form: when the two texts answer every query alike (every whitespace engine of the grammar skips the changed gaps) *)
